@@ -2508,7 +2508,9 @@ def n22(e: Engine, rep: Report):
             n += 1
             rep.evaluations += 1
             rep.functions.add(f.qname)
-            guarded = False
+            guarded = any(isinstance(y, ast.Attribute) and
+                          y.attr in ('isdigit', 'isdecimal')
+                          for y in walk_own(f.node))
             for t in walk_own(f.node):
                 if isinstance(t, ast.Try) and any(
                         c in ast.walk(b) for b in t.body):
@@ -2560,9 +2562,6 @@ def n23(e: Engine, rep: Report):
                 return y
             if isinstance(y, ast.Call) and isinstance(y.func, ast.Name) and \
                     y.func.id in ('filter', 'takewhile', 'dropwhile'):
-                return y
-            if isinstance(y, ast.Subscript) and \
-                    isinstance(y.slice, ast.Slice):
                 return y
         return None
     n = 0
